@@ -9,6 +9,7 @@ import (
 	"math/rand"
 	"os"
 	"sort"
+	"strings"
 	"sync/atomic"
 	"testing"
 	"testing/synctest"
@@ -1043,5 +1044,80 @@ func TestStoreOps(t *testing.T) {
 		_ = enc.Encode(map[string]interface{}{"b": bi, "kind": kind, "steps": r.obs})
 		res.Evaluations++
 		res.Steps += len(r.obs)
+	}
+}
+
+// TestBulkClean fills a backend with many entries of four classes under an exact virtual clock, runs one cleanup cycle
+// and reports per class what is left (spec/BulkClean.tla).  Sizes are large enough for several thousand long-expired
+// entries per shard of the sharded maps.
+func TestBulkClean(t *testing.T) {
+	outp := os.Getenv("VERIF_TRACE_OUT")
+	if outp == "" || os.Getenv("VERIF_BULKCLEAN") == "" {
+		t.Skip("VERIF_BULKCLEAN not set")
+	}
+
+	seed := envInt("VERIF_SEED", 1)
+	total := int(envInt("VERIF_N", 200000))
+	res := Result{Extra: map[string]interface{}{}}
+
+	defer func() { mustNoErr(writeJSON(os.Getenv("VERIF_OUT"), res), "write result") }()
+
+	f, err := os.Create(outp)
+	mustNoErr(err, "trace out")
+
+	defer f.Close()
+
+	enc := json.NewEncoder(f)
+
+	for ri, kind := range Kinds {
+		for _, unlimited := range []bool{false, true} {
+			rng := rand.New(rand.NewSource(seed*131 + int64(ri))) //nolint:gosec
+			cc := cache.Config{Name: "bulk", TimeToLive: time.Hour, ExpirationJitter: -1, DeleteExpiredAfter: 2 * time.Hour,
+				DeleteExpiredJobInterval: 100000 * time.Hour, ItemsCountReportInterval: 100000 * time.Hour}
+			if unlimited {
+				cc.TimeToLive = cache.UnlimitedTTL
+			}
+
+			be := NewBackend(kind, cc)
+			n := map[string]int{}
+			left := map[string]int{}
+			before, lenAfter := 0, 0
+
+			synctest.Test(t, func(t *testing.T) {
+				ttl := map[string]time.Duration{"fresh": 3 * time.Hour, "recent": -time.Hour, "old": -5 * time.Hour}
+				classes := []string{"old", "old", "old", "old", "old", "old", "recent", "fresh", "never"}
+
+				for i := 0; i < total; i++ {
+					cls := classes[rng.Intn(len(classes))]
+					if cls == "never" && !unlimited {
+						cls = "fresh"
+					}
+
+					ctx := context.Background()
+					if cls != "never" {
+						ctx = cache.WithTTL(ctx, ttl[cls], false)
+					}
+
+					_ = be.Write(ctx, []byte(fmt.Sprintf("%s-%07d", cls, i)), "v1")
+					n[cls]++
+				}
+
+				before = be.Len()
+				be.Cleanup()
+				lenAfter = be.Len()
+
+				_, _ = be.Walk(func(e Ent) error {
+					left[string(e.K[:strings.IndexByte(string(e.K), '-')])]++
+
+					return nil
+				})
+			})
+
+			_ = enc.Encode(map[string]interface{}{"kind": kind, "unlimited": unlimited, "before": before, "len_after": lenAfter,
+				"never": n["never"], "fresh": n["fresh"], "recent": n["recent"], "old": n["old"],
+				"left_never": left["never"], "left_fresh": left["fresh"], "left_recent": left["recent"], "left_old": left["old"]})
+			res.Evaluations++
+			res.Steps += total
+		}
 	}
 }
